@@ -28,9 +28,18 @@ def netv(n):
     return [int(n.network_address), n.prefixlen]
 
 
+def safe_nets(w):
+    """w.ipnets(), unless the accepted mask needs more than 16 non-contiguous bits: a broken limit check must not
+    make the harness enumerate 2^k prefixes (the refusal itself is what the case compares)"""
+    k = ncount(int(IPv4Address(w.wildmask)))
+    if k > 16:
+        return [["accepted-with-nc-bits", k]]
+    return [netv(n) for n in w.ipnets()]
+
+
 def obs(w):
     return [int(IPv4Address(w.prefix)), int(IPv4Address(w.wildmask)),
-            [netv(w.ipnet)] if w.ipnet is not None else [], [netv(n) for n in w.ipnets()]]
+            [netv(w.ipnet)] if w.ipnet is not None else [], safe_nets(w)]
 
 
 def mk_mask(r, extra):
@@ -151,7 +160,7 @@ def correspond(ctx):
                 elif op[1] == "QIpnet":
                     out.append([netv(w.ipnet)] if w.ipnet is not None else [])
                 else:
-                    out.append([netv(n) for n in w.ipnets()])
+                    out.append(safe_nets(w))
             return out
         coq_ops = "[" + "; ".join((f"OSet {o[1]} {o[2]}" if o[0] == "set" else f"OAsk {o[1]}") for o in ops[1:]) + "]"
         add(f"run_wild_hist {coq_Z(lim)} {b0} {m0} {coq_ops}", outcome(run),
@@ -187,6 +196,8 @@ def _check_object(W, lim, base, mask):
 
 def _check_nets(w, base, mask):
     k = ncount(mask)
+    if k > 16:
+        return {"what": f"a mask with {k} non-contiguous bits was accepted (not expanded by the harness)"}
     nets = w.ipnets()
     want = base & ~mask & ALL
     if int(IPv4Address(w.prefix)) != want or int(IPv4Address(w.wildmask)) != mask:
